@@ -202,6 +202,9 @@ func genCell(r *rand.Rand, kind string) *table.Cell {
 			return &table.Cell{L: mustLit(literal.Float64, pickF(r, floatsOut))}
 		}
 		return &table.Cell{L: mustLit(literal.Float64, pickF(r, floatsD12))}
+	case "nodeC":
+		p := [][2]string{{"/t", "ab"}, {"/ta", "b"}, {"/t", "a"}}[r.Intn(3)]
+		return &table.Cell{N: mustNode(p[0], p[1])}
 	case "collide":
 		switch r.Intn(10) {
 		case 0:
